@@ -3,6 +3,7 @@
 package checks
 
 import (
+	"encoding/json"
 	"context"
 	"fmt"
 	"sort"
@@ -468,8 +469,12 @@ func c09Wire() vh.Unit {
 			for i := 0; i < 300 && !ok; i++ { // "eventually": up to a minute, normally the first round
 				time.Sleep(200 * time.Millisecond)
 				last = askPeers()
-				// (whatever the wording of the error: the reply no longer offers the host)
-				ok = !strings.HasPrefix(last, "error: ") && !strings.Contains(last, host.NodeID)
+				// the pool's own "no hosts" answer (its text taken from the code under test, so a
+				// rewording follows automatically) - not merely "the dead connection failed to answer"
+				ok = false
+				for n := 0; n <= 3 && !ok; n++ {
+					ok = strings.Contains(last, jsonEscaped(pool.NoHostNodesError{NumTried: n}.Error()))
+				}
 			}
 			step("peer-after-last-connection-closed-" + variant)
 			if !ok {
@@ -485,4 +490,10 @@ func pool2ConnectHost() interface{} {
 	c := vh.DefaultParam("vipnode_connect", "").(pool.ConnectRequest)
 	c.NodeInfo.IsFullNode = true
 	return c
+}
+
+// jsonEscaped returns s as it appears inside a JSON string.
+func jsonEscaped(s string) string {
+	b, _ := json.Marshal(s)
+	return string(b[1 : len(b)-1])
 }
